@@ -54,8 +54,12 @@ class SimFS:
         self.dirs: set[str] = {'/'}
         self.buffer_size = buffer_size
         self.step = 0
-        self.plan = None  # (step number, 'before'|'after', 'crash'|'eio'|'enospc')
+        self.plan = None  # (step number, 'before'|'after', 'crash'|'eio'|'enospc'[, (delta, 'before'|'after')])
         self.fired = None
+        # a second fault chained to an I/O error: a crash `delta` steps after the step that failed (it only ever fires if the
+        # code under test carries on after the error, e.g. on a fallback path)
+        self.plan2 = None
+        self.fired2 = None
         self.log: list[str] = []
         self.open_handles: list = []
         self.fds: dict[int, dict] = {}
@@ -63,11 +67,17 @@ class SimFS:
 
     # ------------------------------------------------------------------ fault points
     def _point(self, name: str, when: str) -> None:
+        if self.plan2 is not None and self.plan2[0] == self.step and self.plan2[1] == when:
+            self.plan2 = None
+            self.fired2 = (self.step, when, name)
+            raise Crash(f'{when} step {self.step} ({name}), after an I/O error')
         if self.plan is not None and self.plan[0] == self.step and self.plan[1] == when and self.fired is None:
             self.fired = (self.step, when, name)
             kind = self.plan[2]
             if kind == 'crash':
                 raise Crash(f'{when} step {self.step} ({name})')
+            if len(self.plan) > 3 and self.plan[3]:
+                self.plan2 = (self.step + self.plan[3][0], self.plan[3][1])
             code = errno.EIO if kind == 'eio' else errno.ENOSPC
             raise OSError(code, f'simulated {kind} {when} step {self.step} ({name})')
 
@@ -78,7 +88,7 @@ class SimFS:
         self._point(name, 'before')
         r = fn()
         # an error *after* a step is only meaningful as a crash (the step itself succeeded)
-        if self.plan is not None and self.plan[2] == 'crash':
+        if (self.plan is not None and self.plan[2] == 'crash') or self.plan2 is not None:
             self._point(name, 'after')
         return r
 
